@@ -262,7 +262,18 @@ fn sphere<T: Tier + Dom<M = Sh>>(rep: &mut Report) {
         cosines.push((th.cos(), th.sin()));
         cosines.push((-th.cos(), th.sin()));
     }
-    let ts: [f64; 6] = [0.0, 0.125, 0.25, 0.5, 0.75, 1.0];
+    // amounts: every 64th, and ladders towards 0, 1/2 and 1 from both sides (a short cut for "the midpoint", "almost
+    // there", "hardly started" has its band somewhere on them)
+    let mut ts: Vec<f64> = (0..=64).map(|k| k as f64 / 64.0).collect();
+    for j in 7..=12 {
+        let d = 2f64.powi(-j);
+        ts.extend([d, 1.0 - d, 0.5 - d, 0.5 + d]);
+    }
+    for d in [0.3, 0.0123, 0.005, 0.004] {
+        ts.extend([0.5 - d, 0.5 + d]);
+    }
+    ts.sort_by(|a, b| a.partial_cmp(b).unwrap());
+    ts.dedup();
     let n_pairs = sub.len() * sub.len();
     let n_con = sub.len() * cosines.len();
     // nearly orthogonal pairs whose tiny dot product is computed exactly (one non-zero term)
@@ -272,7 +283,7 @@ fn sphere<T: Tier + Dom<M = Sh>>(rep: &mut Report) {
     rep.cases(
         "sphere",
         T::NAME,
-        &format!("all {}x{} pairs of rational unit quaternions + {} constructed pairs b = a*R(axis, theta), (cos theta, sin theta) in {:?}; amounts {:?}; nlerp and slerp", sub.len(), sub.len(), n_con, cosines, ts),
+        &format!("all {}x{} pairs of rational unit quaternions + {} constructed pairs b = a*R(axis, theta), (cos theta, sin theta) in {:?}; {} amounts (every 64th, ladders towards 0, 1/2, 1); nlerp and slerp", sub.len(), sub.len(), n_con, cosines, ts.len()),
         n_pairs + n_con + n_orth,
         Guard::states(100).distinct(100).need("slerp-regime", 20).need("nlerp-regime", 5).need("negative-dot", 20).need("zero-dot", 1),
         |i, ctx| {
@@ -329,7 +340,7 @@ fn sphere<T: Tier + Dom<M = Sh>>(rep: &mut Report) {
             let regime = if adot > 0.9995 + guard { "nlerp-regime" } else if adot <= 0.9995 - guard { "slerp-regime" } else { "threshold-band" };
             ctx.branch(regime);
             let base_tol = K_TOL * T::U * 16.0;
-            for t in ts {
+            for t in ts.iter().copied() {
                 for (name, r) in [("nlerp", mk_q(a).nlerp(mk_q(b), c(t))), ("slerp", mk_q(a).slerp(mk_q(b), c(t)))] {
                     let rf: [f64; 4] = qa(r).map(|x| x.f());
                     ctx.tn(6);
